@@ -273,6 +273,26 @@ func perturbations(cfg *genesis.GenesisConfig) []pert {
 			ps = append(ps, pert{what, key, c})
 		}
 	}
+	// a declared token with a supply taken away from EVERY holder (nobody holds it any more): for every token, in each
+	// of its flag combinations (mintable / burnable / utility as generated and flipped)
+	for ti, t := range cfg.TokenConfig.Tokens {
+		ti, z := ti, t.TokenStandard
+		if t.TotalSupply.Sign() == 0 || z == types.ZnnTokenStandard || z == types.QsrTokenStandard {
+			continue
+		}
+		for _, flip := range []bool{false, true} {
+			flip := flip
+			addp(fmt.Sprintf("token %d taken from every holder (mintable flipped: %v)", ti, flip), "inconsistent-config-accepted", func(c *genesis.GenesisConfig) bool {
+				for _, o := range c.GenesisBlocks.Blocks {
+					delete(o.BalanceList, z)
+				}
+				if flip {
+					c.TokenConfig.Tokens[ti].IsMintable = !c.TokenConfig.Tokens[ti].IsMintable
+				}
+				return true
+			})
+		}
+	}
 	for i, b := range cfg.GenesisBlocks.Blocks {
 		i := i
 		isContract := b.Address == types.PlasmaContract || b.Address == types.PillarContract || b.Address == types.SwapContract
